@@ -279,7 +279,7 @@ Proof.
     assert (E2 : numericb_expr M F G to = true) by (apply numericb_expr_iff; eauto). rewrite E2.
     assert (E3 : match step with Some e => numericb_expr M F G e | None => true end = true).
     { destruct step; auto. apply numericb_expr_iff; auto. }
-    cbn. rewrite E3, H8; reflexivity.
+    cbn in *. rewrite E3, H8; reflexivity.
   - reflexivity.
   - reflexivity.
   - apply has_typeb_iff in H; rewrite H; reflexivity.
@@ -330,12 +330,13 @@ Lemma fun_chk_iff : forall M F G f, fun_chk M F G f = true <-> fun_ok M F G f.
 Proof.
   intros M F G f; unfold fun_chk; split.
   - destruct (lookup G (f_name f)) eqn:E; [intros H; discriminate H |].
-    intros H. repeat (apply andb_true_iff in H as [H ?]).
+    intros H. apply andb_true_iff in H as [H Hfin]. apply andb_true_iff in H as [H Hblk].
+    apply andb_true_iff in H as [H Hret]. apply andb_true_iff in H as [Hnd Hps].
     destruct (block_chk M ((f_name f, sig_of f) :: F) (param_scope f :: bind G (f_name f) BFun) 0
-                        (RFun (option_map snd (f_ret f))) (f_body f)) as [G1|] eqn:Eb; [| discriminate].
+                        (RFun (option_map snd (f_ret f))) (f_body f)) as [G1|] eqn:Eb; [| discriminate Hblk].
     apply Fun_ok with (G1 := G1); auto.
     + apply nodupb_iff; auto.
-    + intros p Hp. rewrite forallb_forall in H2. apply H2 in Hp. apply andb_true_iff in Hp; auto.
+    + intros p Hp. rewrite forallb_forall in Hps. apply Hps in Hp. apply andb_true_iff in Hp; auto.
     + apply ret_okb_iff; auto.
     + apply block_chk_iff; auto.
     + intros Hr. destruct (f_ret f); [apply ends_in_returnb_iff; auto | contradiction].
@@ -358,7 +359,7 @@ Proof.
   - split.
     + destruct (stmt_chk M F G 0 RGlobal s) eqn:E; [| intros H; discriminate H].
       intros H. apply stmt_chk_iff in E. apply IH in H. econstructor; eauto.
-    + intros H; inversion H; subst. apply stmt_chk_iff in H3; rewrite H3. apply IH; auto.
+    + intros H; inversion H as [| | F0 G0 s0 r0 G1 Hs Hr]; subst. apply stmt_chk_iff in Hs; rewrite Hs. apply IH; auto.
 Qed.
 
 Lemma find_all_pub_iff : forall M xs ds, find_all_pub M xs = Some ds <-> Forall2 (fun x d => find_pub M x = Some d) xs ds.
@@ -378,12 +379,12 @@ Proof.
   - split; [intros H; inversion H; constructor | intros H; inversion H; reflexivity].
   - destruct (nodupb (map idecl_name (filter idecl_pub M))) eqn:E.
     + split; [intros H; inversion H; constructor; apply nodupb_iff; auto | intros H; inversion H; reflexivity].
-    + split; [intros H; discriminate H |]. intros H; inversion H; subst. apply nodupb_iff in H1; congruence.
+    + split; [intros H; discriminate H |]. intros H; inversion H as [| Hnd |]; subst. apply nodupb_iff in Hnd; congruence.
   - destruct (nodupb xs) eqn:E.
     + rewrite find_all_pub_iff. split.
       * intros H; constructor; auto. apply nodupb_iff; auto.
       * intros H; inversion H; subst; auto.
-    + split; [intros H; discriminate H |]. intros H; inversion H; subst. apply nodupb_iff in H2; congruence.
+    + split; [intros H; discriminate H |]. intros H; inversion H as [| | xs0 ds0 Hnd Hf]; subst. apply nodupb_iff in Hnd; congruence.
 Qed.
 
 Theorem wfb_iff : forall p, wfb p = true <-> wf p.
